@@ -50,8 +50,8 @@ CHECKS = {
    "Trusted: LastCommitInfo always lists exactly the current validator set as CometBFT guarantees.",
    "DESIGN.md 4/C10"),
  "C11": ("exploration", "exhaustive small-scope enumeration against an event-log checker and a reference decision function",
-   "All committee shapes, vote multisets, arrival orders and processing placements inside the stated small scope are driven through the real commitment pool; the outcome is checked against the property's clauses evaluated over the accepted commitments and against an independent reference decision function.",
-   "Exhaustive only inside the stated scope.",
+   "All committee shapes, vote multisets, arrival orders and processing placements inside the stated small scope are driven through the real commitment pool; the outcome is checked against the property's clauses evaluated over the accepted commitments and against an independent reference decision function. App level: generated chain histories with a compute runtime (honest, discrepancy, failure, timeout, lower-rank-scheduler rounds) on the real multiplexer; the runtime blocks emitted by the roothash application must be justified by the commitments accepted for the round.",
+   "Exhaustive only inside the stated scope; the app level is sampled.",
    "DESIGN.md 4/C11"),
  "C12": ("exploration", "round-trip differential + chunk fault enumeration + race detector",
    "Checkpoints of generated trees are created twice (metadata must be identical) and restored into empty databases of both backends in PRNG orders with duplicates, concurrent callers and abort/restart; the restored root and contents must equal the source; every corrupted chunk must be rejected with nothing of it visible.",
@@ -62,7 +62,7 @@ CHECKS = {
    "Trusted: the reference map deciding semantic neutrality.",
    "DESIGN.md 4/C13"),
  "C14": ("exploration", "recomputed-eligibility monitor at election taps (H2)",
-   "At every election of generated histories the oracle recomputes eligibility from registry/staking/scheduler state at the elect.pre tap and checks the elected validator set and committees (only eligible nodes, limits, stake order, power monotone), and that the validator updates turn the simulated CometBFT validator set into exactly the elected set; results are compared across replicas.",
+   "At every election of generated histories the oracle recomputes eligibility from registry/staking/scheduler state at the elect.pre tap and checks the elected validator set and the executor committees of the generated runtime (only eligible nodes, limits, per-entity caps, minimum pool size, exact sizes or no committee, stake order, power monotone), and that the validator updates turn the simulated CometBFT validator set into exactly the elected set; results are compared across replicas.",
    "Trusted: the harness's re-implementation of the eligibility predicate from the property statement.",
    "DESIGN.md 4/C14"),
  "C15": ("exploration", "exact integer inequalities over API sequences + chain taps",
